@@ -7,8 +7,8 @@ from common import *
 IMPORTS = ("From Alator Require Import Model.Num Model.Quirks Model.Exchange Model.Uist Model.Jura "
            "Check.Eqb Check.ExchCheck.")
 
-ASPECTS = {0: "kind", 1: "fills", 2: "admitted", 3: "triggered", 4: "book", 5: "buffer", 6: "next_id", 7: "log", 8: "sort_exact"}
-A_KIND, A_FILLS, A_ADMITTED, A_TRIGGERED, A_BOOK, A_BUFFER, A_NEXTID, A_LOG, A_SORT = [1 << i for i in range(9)]
+ASPECTS = {0: "kind", 1: "fills", 2: "admitted", 3: "triggered", 4: "book", 5: "buffer", 6: "next_id", 7: "log", 8: "sort_exact", 9: "state_invariant"}
+A_KIND, A_FILLS, A_ADMITTED, A_TRIGGERED, A_BOOK, A_BUFFER, A_NEXTID, A_LOG, A_SORT, A_INV = [1 << i for i in range(10)]
 
 UTYPES = ["MarketSell", "MarketBuy", "LimitSell", "LimitBuy", "StopSell", "StopBuy"]
 SYMS = ["ABC", "BCD", "XYZ"]
@@ -746,10 +746,10 @@ ORACLES = dict(C01=oracle_c01, C02=oracle_c02, C03=oracle_c03, C17=oracle_c17, C
 
 PROJ = {
     # property: (kinds, step filter, aspect mask)
-    "C01": (("uist", "jura"), None, A_KIND | A_FILLS | A_ADMITTED | A_TRIGGERED | A_NEXTID),
+    "C01": (("uist", "jura"), None, A_KIND | A_FILLS | A_ADMITTED | A_TRIGGERED | A_NEXTID | A_INV),
     "C02": (("uist",), "tick", A_KIND | A_FILLS | A_BOOK),
-    "C03": (("uist", "jura"), None, A_KIND | A_FILLS | A_ADMITTED | A_TRIGGERED | A_BOOK | A_BUFFER | A_NEXTID),
-    "C17": (("uist", "jura"), "tick", A_KIND | A_ADMITTED | A_FILLS | A_NEXTID | A_TRIGGERED | A_SORT),
+    "C03": (("uist", "jura"), None, A_KIND | A_FILLS | A_ADMITTED | A_TRIGGERED | A_BOOK | A_BUFFER | A_NEXTID | A_INV),
+    "C17": (("uist", "jura"), "tick", A_KIND | A_ADMITTED | A_FILLS | A_NEXTID | A_TRIGGERED | A_SORT | A_INV),
     "C18": (("jura",), None, A_KIND | A_FILLS | A_TRIGGERED | A_BOOK | A_LOG | A_ADMITTED),
 }
 EXCH_FLAGS = ["q_jura_sell_triggers_inverted"]
